@@ -302,6 +302,8 @@ func checkC05(p *Prog, res *Result, tier string) {
 	res.rule("C05-R15", "no dead error guard: no branch tests an error variable that is nil on every path (an assignment turned into a shadowing :=): the test that stops a stream after a failed send must be able to fire", 1)
 	res.rule("C05-R16", "the event cache is searched and copied at logical positions: whatever is handed to the ring's wrap function is the ring's start or end counter plus or minus an offset", 6)
 	res.rule("C05-R17", "revisions are not positions: no position into the event cache and no size of a replay is computed from a revision by arithmetic (revisions are not dense); they meet only in comparisons", 8)
+	res.rule("C05-R18", "events are filtered, ordered and searched by their own revision (Event.Revision), never by the revision of the key-value they carry (for a DELETE: the removed version)", 1)
+	res.rule("C05-R19", "an answer of the event cache is one snapshot: a method of the ring takes the ring's lock at most once per call, directly or through the methods it calls", 3)
 	res.rule("C05-R11", "a delete hands the previous value and revision it read to the event sink on every path after the commit, whatever the commit returned: the DELETE event of a write with unknown outcome (delivered after the repair) still names what was deleted", 2)
 	res.rule("C05-R10", "a forwarder start guarded by a comparison of the requested with the committed revision uses the strict form (requested > committed)", 1)
 	res.rule("C05-R9", "a slice handed over a channel (a broadcast batch, a streamed response) is not written by the sender afterwards: no reuse of a once-allocated buffer, no reset of a field buffer by re-slicing", 2)
@@ -470,6 +472,8 @@ func checkC05(p *Prog, res *Result, tier string) {
 	checkDeadErrorGuards(p, res, "C05-R15")
 	checkRingLogicalPositions(p, res, "C05-R16")
 	checkRevisionsAreNotPositions(p, res, "C05-R17")
+	checkEventsComparedByOwnRevision(p, res, "C05-R18")
+	checkRingSingleSnapshot(p, res, "C05-R19")
 
 	// ---- R2 ----
 	checkCacheBeforeBroadcast(p, r, w, res)
@@ -1269,5 +1273,83 @@ func checkDeadErrorGuards(p *Prog, res *Result, rule string) {
 	}
 	if n == 0 {
 		res.ok(rule, "error guards", "-", "no branch tests an error that can only be nil")
+	}
+}
+
+// checkEventsComparedByOwnRevision (C05-R18): an event is filtered, ordered and searched by the revision of the change
+// it reports (Event.Revision). The key-value it carries has a revision of its own, which for a DELETE is the revision of
+// the version that was removed: a comparison of that field with a watch's start revision drops deletions of objects
+// older than the start revision although the deletion itself is newer.
+func checkEventsComparedByOwnRevision(p *Prog, res *Result, rule string) {
+	n, bad := 0, 0
+	for _, f := range p.AllFuncs {
+		if f.Pkg == nil || f.Blocks == nil || !strings.HasPrefix(f.Pkg.Pkg.Path(), modPath+"/pkg/backend") {
+			continue
+		}
+		k := 0
+		for _, b := range f.Blocks {
+			for _, ins := range b.Instrs {
+				bo, ok := ins.(*ssa.BinOp)
+				if !ok {
+					continue
+				}
+				switch bo.Op {
+				case token.LSS, token.LEQ, token.GTR, token.GEQ, token.EQL, token.NEQ:
+				default:
+					continue
+				}
+				for _, opnd := range []ssa.Value{bo.X, bo.Y} {
+					v := resolve(opnd)
+					for {
+						if cv, ok := v.(*ssa.Convert); ok {
+							v = resolve(cv.X)
+							continue
+						}
+						break
+					}
+					ld, ok := v.(*ssa.UnOp)
+					if !ok || ld.Op != token.MUL {
+						continue
+					}
+					fa, ok := ld.X.(*ssa.FieldAddr)
+					if !ok || fieldOf(fa).Name() != "Revision" {
+						continue
+					}
+					// whose Revision? the struct the field belongs to, and where its pointer was loaded from
+					owner := ""
+					if pt, ok := fa.X.Type().Underlying().(*types.Pointer); ok {
+						if nm, ok := pt.Elem().(*types.Named); ok {
+							owner = nm.Obj().Name()
+						}
+					}
+					if owner == "Event" {
+						n++
+						continue
+					}
+					if owner != "KeyValue" {
+						continue
+					}
+					// a key-value reached through an event's Kv field
+					base, ok := resolve(fa.X).(*ssa.UnOp)
+					if !ok || base.Op != token.MUL {
+						continue
+					}
+					bfa, ok := base.X.(*ssa.FieldAddr)
+					if !ok {
+						continue
+					}
+					if pt, ok := bfa.X.Type().Underlying().(*types.Pointer); ok {
+						if nm, ok := pt.Elem().(*types.Named); ok && nm.Obj().Name() == "Event" {
+							k++
+							bad++
+							res.bad(rule, fmt.Sprintf("%s: comparison #%d of an event's key-value revision", funcName(f), k), p.pos(bo.Pos()), "an event is compared by the revision of the key-value it carries instead of its own: for a DELETE that is the revision of the removed version, so a deletion of an object older than the watch's start revision is filtered out (or ordered before changes it follows) although it happened after it - the stream stays open and the client never learns of the deletion")
+						}
+					}
+				}
+			}
+		}
+	}
+	if bad == 0 {
+		res.ok(rule, "comparisons of event revisions", "-", fmt.Sprintf("%d comparison(s) of Event.Revision, none of an event's key-value revision", n))
 	}
 }
